@@ -152,6 +152,9 @@ fn inst_handle(st: &State) -> Option<Handle> {
 pub fn run_child(ops: &[String]) {
     silence_panics();
     reset_dispositions();
+    // as in every Rust program (the runtime ignores SIGPIPE at start-up): a delivery that wakes a self-pipe
+    // whose reading instance is gone while a handle clone keeps the registrations alive gets EPIPE
+    unsafe { libc::signal(libc::SIGPIPE, libc::SIG_IGN); }
     let mut st = State { lib: None, inst: None, handles: Vec::new(), watch_flags: Vec::new(), keep: Vec::new(), fd_base: 0 };
     for op in ops {
         let w: Vec<&str> = op.split_whitespace().collect();
@@ -184,7 +187,8 @@ pub fn run_child(ops: &[String]) {
                 let sig: i32 = sig.parse().unwrap();
                 let before = all_disps(st.lib);
                 let r = if w[0] == "hadd" {
-                    match inst_handle(&st) {
+                    // through a handle clone; when the instance itself is gone, through one that outlived it
+                    match inst_handle(&st).or_else(|| st.handles.last().cloned()) {
                         Some(h) => { st.handles.push(h.clone()); catch_unwind(AssertUnwindSafe(|| h.add_signal(sig))) }
                         None => Ok(Ok(())),
                     }
@@ -199,6 +203,18 @@ pub fn run_child(ops: &[String]) {
                 if k == "ok" { learn_lib(&mut st, sig); }
                 let after = all_disps(st.lib);
                 format!("{} disp={}", k, disp_diff(&before, &after))
+            }
+            ["dropinst"] => {
+                // the instance goes, a handle clone stays: the shared state (and what it registered) lives on
+                if let Some(h) = inst_handle(&st) { st.handles.push(h); }
+                let r = catch_unwind(AssertUnwindSafe(|| { st.inst.take(); }));
+                format!("{}", if r.is_ok() { "ok" } else { "panic" })
+            }
+            ["drophandles"] => {
+                // the last holders go: every registration the instance (or a handle) made must be removed
+                let r = catch_unwind(AssertUnwindSafe(|| { st.handles.clear(); }));
+                let delta = open_fds() as i64 - st.fd_base as i64;
+                format!("{} fds={:+}", if r.is_ok() { "ok" } else { "panic" }, delta)
             }
             ["drop"] => {
                 st.handles.clear();
